@@ -321,10 +321,14 @@ func main() {
 	violations := 0
 	replayDir := filepath.Join(buildDir, "replay")
 	os.MkdirAll(replayDir, 0o755)
+	knownPrinted := map[string]bool{}
 	report := func(sig, what string, payload interface{}, suffix string) {
 		for _, k := range known.Findings {
 			if k.Property == id && k.Signature == sig && sig != "" {
-				fmt.Printf("KNOWN-FINDING: property=%s %s\n", id, k.What)
+				if !knownPrinted[sig] { // one line per listed finding, however many inputs exhibit it
+					knownPrinted[sig] = true
+					fmt.Printf("KNOWN-FINDING: property=%s %s\n", id, k.What)
+				}
 				return
 			}
 		}
